@@ -80,6 +80,15 @@ if __name__ == '__main__':
             for nm in order:
                 c = dict(form=nm, params=[rnd(p) for p in LEAVES[nm][0](rng)], rs=[round(rng.uniform(0.5, 6), 3) for _ in range(3)] + [1.0])
                 rep.case(nm, c); check_case(rep, c, '%s-%d' % (nm, rnd_i))
+        # one parameter exactly zero (the statement's "including zero ... parameters"): a short-cut taken for a vanishing coefficient must not drop other terms
+        for nm in sorted(LEAVES):
+            base = [rnd(p) for p in LEAVES[nm][0](rng)]
+            for i_ in range(len(base)):
+                ps = list(base); ps[i_] = 0 if isinstance(base[i_], int) else 0.0
+                try:
+                    if not math.isfinite(float(exact(('leaf', nm, ps))[0](1.3))): continue
+                except Exception: continue            # the documented formula itself is undefined for this zero (a length scale): not a parameter set of the form's domain
+                c = dict(form=nm, params=ps, rs=[0.9, 1.3, 2.7]); rep.case(nm + '/zero-parameter', c); check_case(rep, c, '%s-zero-%d' % (nm, i_))
         # same unordered charge product, different pairs (history dependence through caches keyed on derived quantities)
         for nm, plist in (('zbl', [[6, 6], [2, 18], [4, 9], [3, 12]]), ('coul', [[2, 2], [1, 4], [4, 1]]), ('lj', [[0.1, 2.0], [0.2, 1.0]])):
             for params in plist:
